@@ -90,6 +90,8 @@ def fkey(path):
     """stable, readable instance key of a function: generics stripped, last three path segments"""
     p = path
     for _ in range(4):
+        # `<mod::Type<..> as path::Trait<..>>::f` -> `Type-as-Trait::f`
+        p = re.sub(r"<([^<>]*?) as ([^<>]*?)>", lambda m: m.group(1).strip().split("::")[-1] + "-as-" + m.group(2).strip().split("::")[-1], p)
         p = re.sub(r"<[^<>]*>", "", p)
     p = re.sub(r"\s+as\s+", "-as-", p).replace(" ", "")
     segs = [x for x in p.split("::") if x]
